@@ -77,9 +77,9 @@ pub const HARNESSES: &[HarnessDef] = &[
     HarnessDef { name: "vclock", presets: &["calm", "moderate", "chaos"], n: (100, 2000), n_thorough: 10000, cases: (40, 400) },
     HarnessDef { name: "dst", presets: &["new", "calm", "chaos", "chaos8"], n: (100, 1200), n_thorough: 1500, cases: (40, 400) },
     HarnessDef { name: "redis_dst", presets: &["zipf", "uniform", "calm", "chaos"], n: (100, 600), n_thorough: 1300, cases: (40, 400) },
-    HarnessDef { name: "multi_broadcast", presets: &["plain", "lossy", "partitions", "lossy_partitions"], n: (100, 400), n_thorough: 1500, cases: (40, 400) },
-    HarnessDef { name: "multi_partitioned", presets: &["single_target", "single_target_partitions", "rf3", "rf3_lossy", "rf3_partitions", "rf2_any_node"], n: (100, 400), n_thorough: 1500, cases: (40, 400) },
-    HarnessDef { name: "partition", presets: &["isolate", "split_brain", "asymmetric", "ring"], n: (100, 160), n_thorough: 400, cases: (40, 400) },
+    HarnessDef { name: "multi_broadcast", presets: &["plain", "lossy", "partitions", "lossy_partitions", "busy"], n: (60, 250), n_thorough: 800, cases: (40, 400) },
+    HarnessDef { name: "multi_partitioned", presets: &["single_target", "single_target_partitions", "rf3", "rf3_lossy", "rf3_partitions", "rf2_any_node", "busy"], n: (60, 250), n_thorough: 800, cases: (40, 400) },
+    HarnessDef { name: "partition", presets: &["isolate", "split_brain", "asymmetric", "ring", "isolate_mw", "split_brain_mw", "asymmetric_mw", "ring_mw"], n: (100, 160), n_thorough: 400, cases: (40, 400) },
     HarnessDef { name: "streaming", presets: &["new", "calm", "moderate", "chaos"], n: (100, 160), n_thorough: 400, cases: (12, 100) },
     HarnessDef { name: "compaction", presets: &["new", "calm", "aggressive", "chaos"], n: (100, 160), n_thorough: 400, cases: (10, 80) },
     HarnessDef { name: "wal", presets: &["default", "baseline", "crash_only", "chaos", "chaos_nofsync"], n: (100, 1500), n_thorough: 6000, cases: (40, 400) },
@@ -130,10 +130,21 @@ fn bad_preset<T>(h: &str, p: &str) -> Result<T, String> {
 // ---------------------------------------------------------------------------------------
 
 macro_rules! stepwise {
-    ($t:expr, $h:expr, $n:expr) => {{
+    ($t:expr, $h:expr, $n:expr) => {
+        stepwise!($t, $h, $n, |_t: &mut Transcript, _i: usize| {})
+    };
+    // `$snap` dumps the structure under test; it runs at ~16 evenly spaced checkpoints, so that a
+    // difference in the structure's content or order is seen near the operation that caused it
+    // and not only in the final dump
+    ($t:expr, $h:expr, $n:expr, $snap:expr) => {{
+        let every = ($n / 16).max(1);
         for i in 0..$n {
             $h.run(1);
             $t.dbg(format!("op[{}]", i), $h.result());
+            if i % every == every - 1 {
+                #[allow(clippy::redundant_closure_call)]
+                ($snap)(&mut $t, i);
+            }
             if !$h.result().invariant_violations.is_empty() {
                 break;
             }
@@ -158,7 +169,14 @@ fn executor(seed: u64, preset: &str, n: usize) -> Result<Transcript, String> {
     let mut t = Transcript::new();
     t.dbg("config", &cfg);
     let mut h = ExecutorDSTHarness::new(cfg);
-    stepwise!(t, h, n);
+    stepwise!(t, h, n, |t: &mut Transcript, i: usize| {
+        let data = h.executor().get_data();
+        let mut keys: Vec<&String> = data.keys().collect();
+        keys.sort();
+        for k in keys {
+            t.dbg(format!("at[{}].state[{:?}]", i, k), &data[k]);
+        }
+    });
     // final keyspace through the public accessor, sorted by key
     let data = h.executor().get_data();
     let mut keys: Vec<&String> = data.keys().collect();
@@ -181,7 +199,9 @@ fn list(seed: u64, preset: &str, n: usize) -> Result<Transcript, String> {
     let mut t = Transcript::new();
     t.dbg("config", &cfg);
     let mut h = ListDSTHarness::new(cfg);
-    stepwise!(t, h, n);
+    stepwise!(t, h, n, |t: &mut Transcript, i: usize| {
+        t.dbg(format!("at[{}].state", i), &h.list().range(0, -1));
+    });
     t.dbg("state", &h.list().range(0, -1));
     Ok(t)
 }
@@ -198,7 +218,11 @@ fn set(seed: u64, preset: &str, n: usize) -> Result<Transcript, String> {
     let mut t = Transcript::new();
     t.dbg("config", &cfg);
     let mut h = SetDSTHarness::new(cfg);
-    stepwise!(t, h, n);
+    stepwise!(t, h, n, |t: &mut Transcript, i: usize| {
+        let mut m: Vec<String> = h.set().members().iter().map(|s| s.to_string()).collect();
+        m.sort();
+        t.dbg(format!("at[{}].state", i), &m);
+    });
     let mut m: Vec<String> = h.set().members().iter().map(|s| s.to_string()).collect();
     m.sort();
     t.dbg("state", &m);
@@ -216,7 +240,11 @@ fn hash(seed: u64, preset: &str, n: usize) -> Result<Transcript, String> {
     let mut t = Transcript::new();
     t.dbg("config", &cfg);
     let mut h = HashDSTHarness::new(cfg);
-    stepwise!(t, h, n);
+    stepwise!(t, h, n, |t: &mut Transcript, i: usize| {
+        let mut m: Vec<(String, String)> = h.hash().get_all().iter().map(|(k, v)| (k.to_string(), v.to_string())).collect();
+        m.sort();
+        t.dbg(format!("at[{}].state", i), &m);
+    });
     let mut m: Vec<(String, String)> = h
         .hash()
         .get_all()
@@ -239,7 +267,10 @@ fn zset(seed: u64, preset: &str, n: usize) -> Result<Transcript, String> {
     let mut t = Transcript::new();
     t.dbg("config", &cfg);
     let mut h = SortedSetDSTHarness::new(cfg);
-    stepwise!(t, h, n);
+    stepwise!(t, h, n, |t: &mut Transcript, i: usize| {
+        let m: Vec<(String, f64)> = h.sorted_set().range(0, -1).iter().map(|(k, s)| (k.to_string(), *s)).collect();
+        t.dbg(format!("at[{}].state", i), &m);
+    });
     // rank order is behaviour: not sorted by the harness
     let m: Vec<(String, f64)> = h
         .sorted_set()
@@ -429,6 +460,58 @@ fn cmd(parts: &[&str]) -> Result<Command, String> {
     parse_zc(&argv_s(parts))
 }
 
+/// Everything order-sensitive the public API exposes, after EVERY gossip round: virtual time,
+/// the in-flight queue in queue order (from, to, delivery time, the keys each message carries),
+/// every node's Lamport clock and un-gossiped delta count, and every node's reply to a client
+/// GET of every key touched so far (straight on the node's executor: not recorded in
+/// `sim.history`, no replication side effect) next to the value held in its replica state.
+fn multi_snapshot(
+    t: &mut Transcript,
+    sim: &mut redis_sim::simulator::MultiNodeSimulation,
+    tag: &str,
+    touched: &std::collections::BTreeSet<String>,
+) {
+    t.lines.push(format!("{}.time = {}", tag, sim.current_time.0));
+    let q: Vec<String> = sim
+        .message_queue
+        .iter()
+        .map(|m| {
+            let ks: Vec<&str> = m.deltas.iter().map(|d| d.key.as_str()).collect();
+            format!("{}->{}@{}#{}:{}", m.from, m.to, m.delivery_time.0, m.deltas.len(), ks.join("+"))
+        })
+        .collect();
+    t.lines.push(format!("{}.queue = {}", tag, q.join(" ")));
+    let clocks: Vec<u64> = sim.nodes.iter().map(|nd| nd.replica_state.lamport_clock.time).collect();
+    t.lines.push(format!("{}.clocks = {:?}", tag, clocks));
+    let pending: Vec<usize> = sim.nodes.iter().map(|nd| nd.replica_state.pending_deltas.len()).collect();
+    t.lines.push(format!("{}.pending = {:?}", tag, pending));
+    for ni in 0..sim.nodes.len() {
+        let mut parts: Vec<String> = Vec::with_capacity(touched.len());
+        for k in touched {
+            let reply = sim.nodes[ni].executor.execute(&Command::Get(k.clone()));
+            let held = sim.nodes[ni].get_replicated_value(k);
+            parts.push(format!("{}={}/{:?}", k, show_reply(&reply), held));
+        }
+        t.lines.push(format!("{}.get[node{}] = {}", tag, ni, parts.join(" ")));
+    }
+}
+
+/// Time step of one round: mostly shorter than the maximum message delay (so that only a
+/// prefix of the in-flight queue is delivered), sometimes long.
+fn round_step(wl: &mut DeterministicRng, fine: bool) -> u64 {
+    match wl.gen_range(0, 10) {
+        0..=5 => wl.gen_range(1, 6),
+        6..=8 => {
+            if fine {
+                wl.gen_range(1, 6)
+            } else {
+                wl.gen_range(5, 16)
+            }
+        }
+        _ => wl.gen_range(30, 81),
+    }
+}
+
 fn multi(partitioned: bool, seed: u64, preset: &str, n: usize) -> Result<Transcript, String> {
     use redis_sim::replication::HashRing;
     use redis_sim::simulator::multi_node::{check_single_key_linearizability, MultiNodeSimulation};
@@ -437,21 +520,29 @@ fn multi(partitioned: bool, seed: u64, preset: &str, n: usize) -> Result<Transcr
         rf: usize,
         loss: f64,
         partitions: bool,
-        /// writes go to the key's primary (exactly one gossip target per delta with rf 2)
+        /// writes go to the key's primary and there is at most one per round (with rf 2:
+        /// exactly one sender and one gossip target per round)
         primary_only: bool,
         delay: (u64, u64),
+        /// client operations per round: lo..=hi (several writers on different nodes between
+        /// two gossip rounds)
+        writers: (u64, u64),
+        /// only 1..=5 ms steps besides the occasional long one
+        fine: bool,
     }
     let p = match (partitioned, preset) {
-        (false, "plain") => P { nodes: 3, rf: 0, loss: 0.0, partitions: false, primary_only: false, delay: (1, 10) },
-        (false, "lossy") => P { nodes: 4, rf: 0, loss: 0.2, partitions: false, primary_only: false, delay: (1, 25) },
-        (false, "partitions") => P { nodes: 4, rf: 0, loss: 0.0, partitions: true, primary_only: false, delay: (1, 10) },
-        (false, "lossy_partitions") => P { nodes: 5, rf: 0, loss: 0.1, partitions: true, primary_only: false, delay: (0, 30) },
-        (true, "single_target") => P { nodes: 4, rf: 2, loss: 0.2, partitions: false, primary_only: true, delay: (1, 25) },
-        (true, "single_target_partitions") => P { nodes: 4, rf: 2, loss: 0.2, partitions: true, primary_only: true, delay: (1, 25) },
-        (true, "rf3") => P { nodes: 5, rf: 3, loss: 0.0, partitions: false, primary_only: false, delay: (1, 10) },
-        (true, "rf3_lossy") => P { nodes: 5, rf: 3, loss: 0.2, partitions: false, primary_only: false, delay: (1, 25) },
-        (true, "rf3_partitions") => P { nodes: 6, rf: 3, loss: 0.1, partitions: true, primary_only: false, delay: (1, 25) },
-        (true, "rf2_any_node") => P { nodes: 4, rf: 2, loss: 0.0, partitions: false, primary_only: false, delay: (1, 10) },
+        (false, "plain") => P { nodes: 3, rf: 0, loss: 0.0, partitions: false, primary_only: false, delay: (1, 10), writers: (0, 3), fine: true },
+        (false, "lossy") => P { nodes: 4, rf: 0, loss: 0.2, partitions: false, primary_only: false, delay: (1, 25), writers: (1, 4), fine: false },
+        (false, "partitions") => P { nodes: 4, rf: 0, loss: 0.0, partitions: true, primary_only: false, delay: (1, 10), writers: (0, 4), fine: true },
+        (false, "lossy_partitions") => P { nodes: 5, rf: 0, loss: 0.1, partitions: true, primary_only: false, delay: (0, 30), writers: (1, 5), fine: false },
+        (false, "busy") => P { nodes: 4, rf: 0, loss: 0.05, partitions: false, primary_only: false, delay: (1, 10), writers: (3, 6), fine: true },
+        (true, "single_target") => P { nodes: 4, rf: 2, loss: 0.2, partitions: false, primary_only: true, delay: (1, 25), writers: (0, 1), fine: false },
+        (true, "single_target_partitions") => P { nodes: 4, rf: 2, loss: 0.2, partitions: true, primary_only: true, delay: (1, 25), writers: (0, 1), fine: false },
+        (true, "rf3") => P { nodes: 5, rf: 3, loss: 0.0, partitions: false, primary_only: false, delay: (1, 10), writers: (0, 3), fine: true },
+        (true, "rf3_lossy") => P { nodes: 5, rf: 3, loss: 0.2, partitions: false, primary_only: false, delay: (1, 25), writers: (1, 4), fine: false },
+        (true, "rf3_partitions") => P { nodes: 6, rf: 3, loss: 0.1, partitions: true, primary_only: false, delay: (1, 25), writers: (1, 5), fine: true },
+        (true, "rf2_any_node") => P { nodes: 4, rf: 2, loss: 0.0, partitions: false, primary_only: false, delay: (1, 10), writers: (2, 4), fine: true },
+        (true, "busy") => P { nodes: 5, rf: 3, loss: 0.05, partitions: false, primary_only: false, delay: (1, 10), writers: (3, 6), fine: true },
         _ => return bad_preset(if partitioned { "multi_partitioned" } else { "multi_broadcast" }, preset),
     };
     let mut sim = if partitioned {
@@ -468,59 +559,63 @@ fn multi(partitioned: bool, seed: u64, preset: &str, n: usize) -> Result<Transcr
         p.rf.max(1),
     );
     let mut wl = DeterministicRng::new(seed ^ 0x5EED_C20C_20C2_0C20);
-    let keys: Vec<String> = (0..12).map(|i| format!("mk{}", i)).collect();
+    // shared keys (concurrent writers collide) and keys only one node writes
+    let shared: Vec<String> = (0..5).map(|i| format!("mk{}", i)).collect();
+    let mut touched = std::collections::BTreeSet::new();
     let mut t = Transcript::new();
     t.lines.push(format!(
-        "config = nodes {} rf {} loss {} partitions {} primary_only {} delay {:?}",
-        p.nodes, p.rf, p.loss, p.partitions, p.primary_only, p.delay
+        "config = nodes {} rf {} loss {} partitions {} primary_only {} delay {:?} writers {:?} fine {}",
+        p.nodes, p.rf, p.loss, p.partitions, p.primary_only, p.delay, p.writers, p.fine
     ));
     let mut faults = 0u64;
+    let mut ops = 0u64;
     for i in 0..n {
-        let roll = wl.gen_range(0, 100);
-        let key = keys[wl.gen_range(0, keys.len() as u64) as usize].clone();
-        let mut node = wl.gen_range(0, p.nodes as u64) as usize;
-        if p.primary_only {
-            if let Some(r) = ring.get_primary(&key) {
-                node = r.0 as usize - 1;
+        let k = wl.gen_range(p.writers.0, p.writers.1 + 1) as usize;
+        for j in 0..k {
+            let roll = wl.gen_range(0, 100);
+            let mut node = wl.gen_range(0, p.nodes as u64) as usize;
+            let key = if wl.gen_range(0, 4) == 0 && !p.primary_only {
+                format!("own{}k{}", node, wl.gen_range(0, 2))
+            } else {
+                shared[wl.gen_range(0, shared.len() as u64) as usize].clone()
+            };
+            if p.primary_only {
+                if let Some(r) = ring.get_primary(&key) {
+                    node = r.0 as usize - 1;
+                }
             }
+            let a = wl.gen_range(0, p.nodes as u64) as usize;
+            let b = wl.gen_range(0, p.nodes as u64) as usize;
+            let client = (i + j) % 4;
+            let (op, resp): (String, String) = if roll < 58 {
+                touched.insert(key.clone());
+                let r = sim.execute(client, node, cmd(&["SET", &key, &format!("v{}_{}", i, j)])?);
+                (format!("SET {} v{}_{} @node{}", key, i, j, node), show_reply(&r))
+            } else if roll < 66 {
+                touched.insert(key.clone());
+                let r = sim.execute(client, node, cmd(&["DEL", &key])?);
+                (format!("DEL {} @node{}", key, node), show_reply(&r))
+            } else if roll < 78 {
+                let r = sim.execute(client, node, cmd(&["GET", &key])?);
+                (format!("GET {} @node{}", key, node), show_reply(&r))
+            } else if roll < 86 && p.partitions && a != b {
+                sim.partition(a, b);
+                faults += 1;
+                (format!("PARTITION {} {}", a, b), String::new())
+            } else if roll < 94 && p.partitions && a != b {
+                sim.heal_partition(a, b);
+                (format!("HEAL {} {}", a, b), String::new())
+            } else {
+                ("IDLE".to_string(), String::new())
+            };
+            ops += 1;
+            t.lines.push(format!("round[{}].op[{}] = {} -> {}", i, j, op, resp));
         }
-        let a = wl.gen_range(0, p.nodes as u64) as usize;
-        let b = wl.gen_range(0, p.nodes as u64) as usize;
-        let (op, resp): (String, String) = if roll < 55 {
-            let c = cmd(&["SET", &key, &format!("v{}", i)])?;
-            let r = sim.execute(i % 3, node, c);
-            (format!("SET {} v{} @node{}", key, i, node), show_reply(&r))
-        } else if roll < 63 {
-            let c = cmd(&["DEL", &key])?;
-            let r = sim.execute(i % 3, node, c);
-            (format!("DEL {} @node{}", key, node), show_reply(&r))
-        } else if roll < 75 {
-            let c = cmd(&["GET", &key])?;
-            let r = sim.execute(i % 3, node, c);
-            (format!("GET {} @node{}", key, node), show_reply(&r))
-        } else if roll < 83 && p.partitions && a != b {
-            sim.partition(a, b);
-            faults += 1;
-            (format!("PARTITION {} {}", a, b), String::new())
-        } else if roll < 92 && p.partitions && a != b {
-            sim.heal_partition(a, b);
-            (format!("HEAL {} {}", a, b), String::new())
-        } else {
-            ("IDLE".to_string(), String::new())
-        };
-        t.lines.push(format!("step[{}].op = {} -> {}", i, op, resp));
-        // in the single-target preset one round follows every operation, so that a round
-        // never carries more than one delta
-        sim.advance_time_ms(wl.gen_range(1, 15));
+        let pending: Vec<usize> = sim.nodes.iter().map(|nd| nd.replica_state.pending_deltas.len()).collect();
+        t.lines.push(format!("round[{}].senders = {:?}", i, pending));
+        sim.advance_time_ms(round_step(&mut wl, p.fine));
         sim.gossip_round();
-        let q: Vec<String> = sim
-            .message_queue
-            .iter()
-            .map(|m| format!("{}->{}@{}#{}", m.from, m.to, m.delivery_time.0, m.deltas.len()))
-            .collect();
-        t.lines.push(format!("step[{}].queue = {}", i, q.join(" ")));
-        let clocks: Vec<u64> = sim.nodes.iter().map(|nd| nd.replica_state.lamport_clock.time).collect();
-        t.lines.push(format!("step[{}].clocks = {:?}", i, clocks));
+        multi_snapshot(&mut t, &mut sim, &format!("round[{}]", i), &touched);
     }
     // heal everything and let it settle
     let parts: Vec<(usize, usize)> = {
@@ -532,21 +627,13 @@ fn multi(partitioned: bool, seed: u64, preset: &str, n: usize) -> Result<Transcr
     for (a, b) in parts {
         sim.heal_partition(a, b);
     }
-    let clocks: Vec<u64> = sim.nodes.iter().map(|nd| nd.replica_state.lamport_clock.time).collect();
-    t.lines.push(format!("final.clocks = {:?}", clocks));
-    t.dbg("converge", &sim.converge(30));
-    t.dbg("final.time", &sim.current_time);
+    multi_snapshot(&mut t, &mut sim, "final", &touched);
+    for r in 0..30 {
+        sim.advance_time_ms(10);
+        sim.gossip_round();
+        multi_snapshot(&mut t, &mut sim, &format!("settle[{}]", r), &touched);
+    }
     t.dbg("final.anti_entropy_syncs", &sim.anti_entropy_syncs);
-    let q: Vec<String> = sim
-        .message_queue
-        .iter()
-        .map(|m| {
-            let mut ks: Vec<&str> = m.deltas.iter().map(|d| d.key.as_str()).collect();
-            ks.sort();
-            format!("{}->{}@{} {:?}", m.from, m.to, m.delivery_time.0, ks)
-        })
-        .collect();
-    t.list("final.queue", &q);
     for (ni, node) in sim.nodes.iter().enumerate() {
         let mut ks: Vec<&String> = node.replica_state.replicated_keys.keys().collect();
         ks.sort();
@@ -558,28 +645,31 @@ fn multi(partitioned: bool, seed: u64, preset: &str, n: usize) -> Result<Transcr
                 vcore::proj::peer_view(&node.replica_state.replicated_keys[k])
             ));
         }
-        t.dbg(format!("node[{}].pending_deltas", ni), &node.replica_state.pending_deltas.len());
     }
-    for k in &keys {
+    for k in &touched {
         t.dbg(format!("values[{}]", k), &sim.get_all_values(k));
         t.dbg(format!("converged[{}]", k), &sim.check_key_convergence(k));
     }
     t.list("history", &sim.history);
-    let lin = check_single_key_linearizability(&sim.history, &keys[0]);
-    t.dbg("verdict.linearizable", &lin.is_linearizable);
-    t.texts("verdict.lin_violations", &lin.violations);
-    let all = keys.iter().all(|k| sim.check_key_convergence(k));
+    for k in shared.iter().take(2) {
+        let lin = check_single_key_linearizability(&sim.history, k);
+        t.dbg(format!("verdict.linearizable[{}]", k), &lin.is_linearizable);
+        t.texts(&format!("verdict.lin_violations[{}]", k), &lin.violations);
+    }
+    let all = touched.iter().all(|k| sim.check_key_convergence(k));
     t.dbg("verdict.all_converged", &all);
-    t.ops = (n as u64) * 2;
+    t.ops = ops + n as u64;
     t.faults = if p.loss > 0.0 || p.partitions { Some(faults + if p.loss > 0.0 { 1 } else { 0 }) } else { None };
     Ok(t)
 }
 
 fn partition(seed: u64, preset: &str, n: usize) -> Result<Transcript, String> {
+    use redis_sim::simulator::multi_node::{check_single_key_linearizability, MultiNodeSimulation};
     use redis_sim::simulator::partition_tests::{run_partition_test, PartitionConfig};
     let mut wl = DeterministicRng::new(seed ^ 0x9A27_1710);
     let nodes = 3 + (wl.gen_range(0, 4) as usize);
-    let cfg = match preset {
+    let scenario = preset.trim_end_matches("_mw");
+    let cfg = match scenario {
         "isolate" => PartitionConfig::isolate_node(wl.gen_range(0, nodes as u64) as usize, nodes),
         "split_brain" => {
             let cut = 1 + wl.gen_range(0, nodes as u64 - 1) as usize;
@@ -589,9 +679,80 @@ fn partition(seed: u64, preset: &str, n: usize) -> Result<Transcript, String> {
         "ring" => PartitionConfig::ring(nodes),
         _ => return bad_preset("partition", preset),
     };
+    let keys: Vec<String> = (0..6).map(|i| format!("pk{}", i)).collect();
+    let mut t = Transcript::new();
+    t.dbg("config", &cfg);
+    let pairs = cfg.partitioned_pairs.len() as u64;
+    if preset.ends_with("_mw") {
+        // The built-in scenario runner writes from one node per gossip round and returns only
+        // a summary. This driver runs the same phases (partition, writes, 10 quiet rounds,
+        // heal, writes, convergence rounds) on the same simulation with SEVERAL writers per
+        // 5 ms round on both sides of the partition, and records every round.
+        let loss = if wl.gen_range(0, 2) == 0 { 0.0 } else { 0.15 };
+        let mut sim = MultiNodeSimulation::new(nodes, seed).with_packet_loss(loss);
+        t.lines.push(format!("config.nodes = {} loss {}", nodes, loss));
+        for (a, b) in &cfg.partitioned_pairs {
+            sim.partition(*a, *b);
+        }
+        let mut touched = std::collections::BTreeSet::new();
+        let mut ops = 0u64;
+        let rounds_during = (n / 4).max(1);
+        let rounds_after = (n / 8).max(1);
+        let phase = |sim: &mut MultiNodeSimulation, t: &mut Transcript, wl: &mut DeterministicRng, name: &str, rounds: usize, writers: (u64, u64), step: u64, ops: &mut u64, touched: &mut std::collections::BTreeSet<String>| -> Result<(), String> {
+            for i in 0..rounds {
+                let k = wl.gen_range(writers.0, writers.1 + 1) as usize;
+                for j in 0..k {
+                    let node = wl.gen_range(0, nodes as u64) as usize;
+                    let key = keys[wl.gen_range(0, keys.len() as u64) as usize].clone();
+                    let (op, r) = if wl.gen_range(0, 5) == 0 {
+                        (format!("GET {} @node{}", key, node), sim.execute(j, node, cmd(&["GET", &key])?))
+                    } else {
+                        touched.insert(key.clone());
+                        let v = format!("{}{}_{}", name, i, j);
+                        (format!("SET {} {} @node{}", key, v, node), sim.execute(j, node, cmd(&["SET", &key, &v])?))
+                    };
+                    *ops += 1;
+                    t.lines.push(format!("{}[{}].op[{}] = {} -> {}", name, i, j, op, show_reply(&r)));
+                }
+                sim.advance_time_ms(step);
+                sim.gossip_round();
+                multi_snapshot(t, sim, &format!("{}[{}]", name, i), touched);
+            }
+            Ok(())
+        };
+        phase(&mut sim, &mut t, &mut wl, "during", rounds_during, (1, 4), 5, &mut ops, &mut touched)?;
+        phase(&mut sim, &mut t, &mut wl, "quiet", 10, (0, 0), 10, &mut ops, &mut touched)?;
+        for (a, b) in &cfg.partitioned_pairs {
+            sim.heal_partition(*a, *b);
+        }
+        multi_snapshot(&mut t, &mut sim, "healed", &touched);
+        phase(&mut sim, &mut t, &mut wl, "after", rounds_after, (1, 3), 5, &mut ops, &mut touched)?;
+        let mut rounds_to_converge = None;
+        for r in 0..40 {
+            sim.advance_time_ms(10);
+            sim.gossip_round();
+            multi_snapshot(&mut t, &mut sim, &format!("converge[{}]", r), &touched);
+            if touched.iter().all(|k| sim.check_key_convergence(k)) {
+                rounds_to_converge = Some(r + 1);
+                break;
+            }
+        }
+        t.dbg("verdict.converged", &rounds_to_converge.is_some());
+        t.dbg("result.convergence_rounds", &rounds_to_converge);
+        t.dbg("result.anti_entropy_syncs", &sim.anti_entropy_syncs);
+        for k in &touched {
+            t.dbg(format!("values[{}]", k), &sim.get_all_values(k));
+        }
+        t.list("history", &sim.history);
+        let lin = check_single_key_linearizability(&sim.history, &keys[0]);
+        t.dbg("verdict.linearizable", &lin.is_linearizable);
+        t.texts("verdict.lin_violations", &lin.violations);
+        t.ops = ops + (rounds_during + rounds_after + 10) as u64;
+        t.faults = Some(pairs);
+        return Ok(t);
+    }
     // n = total number of writes, split between "during" and "after"
     let during_n = n / 2;
-    let keys: Vec<String> = (0..6).map(|i| format!("pk{}", i)).collect();
     let mut owned: Vec<(usize, String, String)> = Vec::new();
     for i in 0..n {
         owned.push((
@@ -602,9 +763,6 @@ fn partition(seed: u64, preset: &str, n: usize) -> Result<Transcript, String> {
     }
     let during: Vec<(usize, &str, &str)> = owned[..during_n].iter().map(|(a, k, v)| (*a, k.as_str(), v.as_str())).collect();
     let after: Vec<(usize, &str, &str)> = owned[during_n..].iter().map(|(a, k, v)| (*a, k.as_str(), v.as_str())).collect();
-    let mut t = Transcript::new();
-    t.dbg("config", &cfg);
-    let pairs = cfg.partitioned_pairs.len() as u64;
     let r = run_partition_test("c20", nodes, seed, cfg, during, after, 40);
     t.dbg("result.test_name", &r.test_name);
     t.dbg("result.partition_config", &r.partition_config);
@@ -845,7 +1003,11 @@ fn scenario(seed: u64, preset: &str, n: usize) -> Result<Transcript, String> {
     }
     let mut time = 0u64;
     for i in 0..n {
-        time += wl.gen_range(0, 40);
+        // a quarter of the operations share their time stamp with the previous one (different
+        // clients at the same virtual instant: the order among them is the builder's business)
+        if wl.gen_range(0, 4) != 0 {
+            time += wl.gen_range(0, 40);
+        }
         let k = format!("sk{}", wl.gen_range(0, 10));
         let c = if sets && wl.gen_range(0, 3) > 0 {
             // replies / effects whose order comes from the server's hash tables
@@ -1007,7 +1169,22 @@ fn sim_store(seed: u64, preset: &str, n: usize) -> Result<Transcript, String> {
         for i in 0..n {
             let k = format!("obj/{:02}", wl.gen_range(0, 16));
             let k2 = format!("obj/{:02}", wl.gen_range(0, 16));
-            let line = match wl.gen_range(0, 10) {
+            let line = match wl.gen_range(0, 12) {
+                10 | 11 => {
+                    // three requests in flight at once (polled in this order by join!)
+                    let data = vec![(i % 251) as u8; 1 + wl.gen_range(0, 32) as usize];
+                    let (a, b, c) = tokio::join!(store.put(&k, &data), store.get(&k2), store.exists(&k));
+                    format!(
+                        "join put {} {}B / get {} / exists {} -> {} | {} | {}",
+                        k,
+                        data.len(),
+                        k2,
+                        k,
+                        show(a.map(|_| String::new())),
+                        show(b.map(|d| vcore::hex(&d))),
+                        show(c.map(|x| x.to_string()))
+                    )
+                }
                 0..=3 => {
                     let data = vec![(i % 251) as u8; 1 + wl.gen_range(0, 64) as usize];
                     format!("put {} {}B -> {}", k, data.len(), show(store.put(&k, &data).await.map(|_| String::new())))
